@@ -30,10 +30,30 @@ def _perms():
             "swap-ends": lambda ks: ([ks[-1]] + ks[1:-1] + [ks[0]]) if len(ks) > 1 else ks}
 
 
+def _shuffler(seed):
+    """sibling reordering that differs from group to group (so two copies of a group get different member orders)"""
+    import random
+
+    def f(kids):
+        r = random.Random(seed * 1000003 + sum(kids) * 31 + len(kids))
+        k2 = list(kids)
+        r.shuffle(k2)
+        return k2
+    return f
+
+
 def variants(case, vocab, rot, allow_ph):
     base = hedgen.render(case, vocab, rot, allow_ph=allow_ph, style=0)[0]
     out = [("base", base)]
+    if case.get("sflaw", "none") != "none":
+        # damaged text: only the blanks around the delimiters are varied (the damage itself is kept)
+        for st in (1, 2, 3):
+            out.append(("respace%d" % st, hedgen.render(case, vocab, rot, allow_ph=allow_ph, style=st)[0]))
+        return out
     P = _perms()
+    if case.get("dup"):
+        for k in range(6):
+            out.append(("reorder-shuffle%d" % k, hedgen.render(case, vocab, rot, allow_ph=allow_ph, style=0, perm=_shuffler(rot + k))[0]))
     out.append(("respell", hedgen.render(case, vocab, rot, allow_ph=allow_ph, style=0, forms=rot + 1)[0]))
     out.append(("respell-long", hedgen.render(case, vocab, rot, allow_ph=allow_ph, style=0, forms=rot + 2)[0]))
     out.append(("lowercase", hedgen.render(case, vocab, rot, allow_ph=allow_ph, style=0, casing=1)[0]))
@@ -53,7 +73,7 @@ def run_chunk(args):
     schema, dd, vocab = _schema(version)
     out = []
     for ci, case in cases:
-        if not vocab.usable(case) or case.get("sflaw", "none") != "none":
+        if not vocab.usable(case) or case.get("sflaw", "none") == "PARENTHESES_MISMATCH":
             continue
         rot = base_rot + ci * 13
         allow_ph = bool((ci + base_rot) % 2)
@@ -78,7 +98,7 @@ def run(ctx):
             timeout=1800)
     gen = "MC_HedRules_gen.cfg"
     with open(os.path.join(tlc.SPECS, gen)) as f:
-        txt = f.read().replace("SFlaws <- SFlawsAll", "SFlaws <- SFlawsDef")
+        txt = f.read()
     if not quick:
         txt = txt.replace("MaxN = 3", "MaxN = 4")
     made = os.path.join(tlc.SPECS, "MC_HedRules_gen_c04.cfg")
@@ -108,6 +128,17 @@ def run(ctx):
             cases.append(j)
             ndup += 1
     ctx.note("trees_with_duplicated_group", ndup)
+    rn = ctx.tlc("MC_HedRules", "MC_HedRules_near.cfg", workers=1, label="neighbourhood of valid constructs incl. copied / flattened sub-trees", timeout=3000)
+    nn = 0
+    for j in rn.json_lines:
+        k = json.dumps([j["par"], j["kind"]])
+        if k not in seen:
+            seen.add(k)
+            if "TAG_EXPRESSION_REPEATED" in j["codes"] and "TAG_EMPTY" not in j["codes"]:
+                j["dup"] = True      # (repeated EMPTY groups are reported as empty groups)
+            cases.append(j)
+            nn += 1
+    ctx.note("neighbourhood_trees", nn)
     versions = [v for v, _ in facts.bundled()]
     jobs = []
     for vi, v in enumerate(versions):
@@ -142,7 +173,7 @@ def run(ctx):
         for ci, allow_ph, res in out[5:7]:
             ctx.sample({"schema": version, "base": res[0][1], "codes": res[0][2], "rewrites": [t for _, t, _ in res[1:5]]})
     ctx.assumptions += ["rewrites keep values and units verbatim (unit symbols are case-sensitive by rule)",
-                        "text-damaged cases are not rewritten (spacing-sensitive by construction)"]
+                        "text-damaged cases (empty element, missing comma) are only re-spaced; unbalanced ones are not rewritten"]
 
 
 def replay(obj):
